@@ -42,6 +42,8 @@ func init() {
 				{Scenario: "c19_hc", Params: mustJSON(HCParams{Mode: "patterns"}), Bound: 0, Shards: 4},
 				{Scenario: "c19_hc", Params: mustJSON(HCParams{Mode: "stop"}), Bound: b, Shards: 8},
 				{Scenario: "c19_hc", Params: mustJSON(HCParams{Mode: "calls"}), Bound: 0},
+				{Scenario: "c13_shutdown", Params: mustJSON(ShutdownParams{Case: "idle", Checkpoint: "auto", Mitigation: true, Health: true, Membership: "static", MaxPoint: 1}), Bound: 0, Note: "the checker as wired into the client: Close() of the client stops it (API disabled, the default of the harness): no ping afterwards, no late fail-stop"},
+				{Scenario: "c13_shutdown", Params: mustJSON(ShutdownParams{Case: "pingfail", Checkpoint: "auto", Health: true, Membership: "static", MaxPoint: 40}), Bound: 0, Shards: 4, Note: "Close() of the client at every point of a failing health-check round"},
 				{Scenario: "c19_endpoints", Params: mustJSON(struct{}{}), Bound: 0, Shards: 2, Note: "what a failed ping is: per-service endpoint lists of a multi-node cluster with some nodes down"},
 			}
 		},
